@@ -90,8 +90,13 @@ def waker_registrations(f):
             any(x[0] == 'arg' and 'waker' in str(x[2] or '') for x in subexprs(e))
 
     def is_slot(e):
-        ap = access_path(e)
-        return bool(ap) and 'waker' in ap[1].split('.')
+        # the slot itself, or a view of it (`slot.as_mut()`, `&mut *slot`, its Some payload)
+        for x in subexprs(e):
+            if x[0] in ('proj', 'arg', 'local', 'ref'):
+                ap = access_path(x)
+                if ap and 'waker' in ap[1].split('.') and not any(y[0] == 'call' and y[1].endswith('Context::<\'a>::waker') for y in subexprs(x)):
+                    return True
+        return False
     out = []
     for loc, s in f.assigns():
         if not s['lhs']['p']:
